@@ -1,14 +1,30 @@
 (* Model of Transaction::validate (transaction.rs) together with
-   generate_total_fees, Slip::validate and validate_against_utxoset.
-   Cryptography is an oracle input computed by the harness with the real
-   secp256k1: [t_sig_ok] = verify_signature(hash_for_signature, signature,
-   from[0].public_key), [t_path_ok] = validate_routing_path().
-   Keys are interned numbers; [sl_spendable] says whether the ledger holds the
-   slip's utxo key with value true.  No proofs here. *)
+   generate_total_fees, Slip::validate and validate_against_utxoset, the
+   validity gate of Mempool::add_transaction_if_validates and the final sweep
+   of Block::validate.  All transaction types are modelled, including the
+   BlockStake branch (which falls through to the common checks) and the Bound
+   (NFT) branch with its "new NFT" and "send NFT" rules.
+
+   Cryptography and ledger look-ups are oracle inputs computed by the harness
+   with the real code:
+     [t_sig_ok]     = verify_signature(hash_for_signature, signature, from[0].public_key)
+     [t_path_ok]    = validate_routing_path()
+     [sl_spendable] = the utxo set holds the slip's key with value true
+     [sl_unlocked]  = Blockchain::is_slip_unlocked(&slip.utxoset_key)
+   Keys are interned numbers (0 = the all-zero byte string).  A slip carries
+   the fields the rules read: its coordinates (block_id, tx_ordinal,
+   slip_index), the amount encoded in its utxoset_key field, and the NFT id
+   coordinates decoded from the first 17 bytes of its public key.
+   [e_ovf] says whether integer overflow checks are compiled in (debug
+   profile): two additions of the function can overflow.  No proofs here. *)
 From Saito Require Import Base.
 
 Record aslip := mkSlip {
-  sl_pk : N; sl_amount : N; sl_type : N; sl_key : N; sl_spendable : bool
+  sl_pk : N; sl_amount : N; sl_type : N; sl_key : N; sl_spendable : bool;
+  sl_bid : N; sl_ord : N; sl_idx : N;        (* block_id, tx_ordinal, slip_index (u8) *)
+  sl_unlocked : bool;                         (* is_slip_unlocked(utxoset_key) *)
+  sl_key_amount : N;                          (* amount parsed from utxoset_key *)
+  sl_uuid_bid : N; sl_uuid_ord : N; sl_uuid_idx : N   (* public_key[0..8], [8..16], [16] *)
 }.
 
 Record atx := mkTx {
@@ -16,11 +32,16 @@ Record atx := mkTx {
   t_sig_ok : bool; t_has_hash : bool; t_path_ok : bool
 }.
 
+Record env := mkEnv {
+  e_stake_req : N;      (* blockchain.social_stake_requirement *)
+  e_ovf : bool          (* overflow checks compiled in *)
+}.
+
 (* TransactionType / SlipType discriminants *)
 Definition TNormal : N := 0.   Definition TFee : N := 1.     Definition TGolden : N := 2.
 Definition TATR : N := 3.      Definition TVip : N := 4.     Definition TSPV : N := 5.
 Definition TIssuance : N := 6. Definition TStake : N := 7.   Definition TBound : N := 8.
-Definition SBound : N := 9.
+Definition SNormal : N := 0.   Definition SStake : N := 8.   Definition SBound : N := 9.
 
 Definition two64 : N := 18446744073709551616.
 Definition U64MAX : N := two64 - 1.
@@ -38,11 +59,12 @@ Definition total_fees (t : atx) : N :=
 Definition slip_validate (s : aslip) : bool :=
   if 0 <? sl_amount s then sl_spendable s else true.
 
-Inductive verdict := Valid | Invalid | Unmodelled.
+Inductive verdict := Valid | Invalid | Panics.
 Definition verdict_code (v : verdict) : N :=
-  match v with Valid => 1 | Invalid => 0 | Unmodelled => 7 end.
+  match v with Valid => 1 | Invalid => 0 | Panics => 9 end.
 
-Definition has_bound (l : list aslip) : bool := existsb (fun s => sl_type s =? SBound) l.
+Definition is_type (ty : N) (s : aslip) : bool := sl_type s =? ty.
+Definition has_bound (l : list aslip) : bool := existsb (is_type SBound) l.
 
 (* value-carrying, non-bound inputs: the ones that move coins *)
 Definition value_input (s : aslip) : bool := (0 <? sl_amount s) && negb (sl_type s =? SBound).
@@ -58,15 +80,99 @@ Definition signer (t : atx) : N := match t_from t with s :: _ => sl_pk s | [] =>
 Definition all_owned (t : atx) : bool :=
   forallb (fun s => negb (value_input s) || (sl_pk s =? signer t)) (t_from t).
 
-Definition tx_validate (t : atx) : verdict :=
-  if 255 <? Nlen (t_from t) then Invalid else
-  if 255 <? Nlen (t_to t) then Invalid else
-  if negb (nodupb (value_keys t)) then Invalid else
-  if t_type t =? TFee then Valid else
-  if t_type t =? TSPV then
-    (if existsb (fun s => 0 <? sl_amount s) (t_to t) then Invalid
-     else if 0 <? total_fees t then Invalid else Valid) else
-  if t_type t =? TStake then Unmodelled else
+(* ---- BlockStake branch ---- *)
+
+(* the loop over the outputs: a slip that is neither BlockStake nor Normal ends
+   it with "invalid"; `total_stakes += slip.amount` is a plain u64 addition *)
+Inductive sres := SOk (total : N) | SBad | SPanic.
+Fixpoint stake_outs (ovf : bool) (acc : N) (l : list aslip) : sres :=
+  match l with
+  | [] => SOk acc
+  | s :: rest =>
+      if negb (is_type SStake s) && negb (is_type SNormal s) then SBad
+      else if is_type SStake s then
+        (if two64 <=? acc + sl_amount s
+         then (if ovf then SPanic else stake_outs ovf ((acc + sl_amount s) mod two64) rest)
+         else stake_outs ovf (acc + sl_amount s) rest)
+      else stake_outs ovf acc rest
+  end.
+
+(* the loop over the inputs: key not all-zero, is_slip_unlocked, the amount
+   encoded in the key equals the slip's amount; then all keys pairwise distinct
+   (zero-amount inputs included) *)
+Definition stake_input_ok (s : aslip) : bool :=
+  negb (sl_key s =? 0) && sl_unlocked s && (sl_key_amount s =? sl_amount s).
+Definition stake_ins (t : atx) : bool :=
+  forallb stake_input_ok (t_from t) && nodupb (map sl_key (t_from t)).
+
+(* ---- Bound (NFT) branch ---- *)
+Definition dflt : aslip := mkSlip 0 0 0 0 false 0 0 0 false 0 0 0 0.
+Definition fr (t : atx) (i : nat) : aslip := nth i (t_from t) dflt.
+Definition tt (t : atx) (i : nat) : aslip := nth i (t_to t) dflt.
+
+Definition is_new_nft (t : atx) : bool :=
+  (Nlen (t_from t) =? 1) && is_type SNormal (fr t 0) && (3 <=? Nlen (t_to t)).
+
+(* "new NFT": slip1/slip3 Bound, slip2 Normal, slip3 amount 0, the loop over
+   `self.from.iter().skip(3)` (sic: the inputs, of which there is one), the NFT
+   id in slip3's key field names the consumed input *)
+Definition bound_create_ok (t : atx) : bool :=
+  negb (Nlen (t_to t) <? 3)
+  && is_type SBound (tt t 0) && is_type SBound (tt t 2)
+  && is_type SNormal (tt t 1)
+  && (sl_amount (tt t 2) =? 0)
+  && forallb (is_type SNormal) (skipn 3 (t_from t))
+  && (sl_uuid_bid (tt t 2) =? sl_bid (fr t 0))
+  && (sl_uuid_ord (tt t 2) =? sl_ord (fr t 0))
+  && (sl_uuid_idx (tt t 2) =? sl_idx (fr t 0)).
+
+(* "send NFT", everything except the slip_index test *)
+Definition bound_send_shape (t : atx) : bool :=
+  negb (Nlen (t_from t) <? 3) && negb (Nlen (t_to t) <? 3)
+  && is_type SBound (fr t 0) && is_type SBound (fr t 2)
+  && is_type SNormal (fr t 1)
+  && is_type SBound (tt t 0) && is_type SBound (tt t 2)
+  && is_type SNormal (tt t 1)
+  && forallb (is_type SNormal) (skipn 3 (t_from t))
+  && forallb (is_type SNormal) (skipn 3 (t_to t))
+  && (sl_pk (fr t 0) =? sl_pk (tt t 0))
+  && (sl_pk (fr t 2) =? sl_pk (tt t 2))
+  && (sl_amount (fr t 0) =? sl_amount (tt t 0))
+  && (sl_amount (fr t 2) =? sl_amount (tt t 2))
+  && (sl_amount (fr t 2) =? 0)
+  && (sl_bid (fr t 0) =? sl_bid (fr t 1)) && (sl_bid (fr t 1) =? sl_bid (fr t 2))
+  && (sl_ord (fr t 0) =? sl_ord (fr t 1)) && (sl_ord (fr t 1) =? sl_ord (fr t 2)).
+
+(* `slip_index1 != slip_index0 + 1 || slip_index2 != slip_index1 + 1` on u8 *)
+Definition succ_u8 (ovf : bool) (a b : N) : verdict :=   (* Valid = "b is a + 1" *)
+  if a =? 255 then (if ovf then Panics else if b =? 0 then Valid else Invalid)
+  else if b =? a + 1 then Valid else Invalid.
+Definition bound_send_idx (ovf : bool) (t : atx) : verdict :=
+  match succ_u8 ovf (sl_idx (fr t 0)) (sl_idx (fr t 1)) with
+  | Valid => succ_u8 ovf (sl_idx (fr t 1)) (sl_idx (fr t 2))
+  | v => v
+  end.
+
+(* the tail common to all types: at least one output, every input passes Slip::validate *)
+Definition tail_checks (t : atx) : verdict :=
+  match t_to t with
+  | [] => Invalid
+  | _ => if forallb slip_validate (t_from t) then Valid else Invalid
+  end.
+
+Definition bound_checks (e : env) (t : atx) : verdict :=
+  if is_new_nft t then
+    (if bound_create_ok t then tail_checks t else Invalid)
+  else if bound_send_shape t then
+    match bound_send_idx (e_ovf e) t with
+    | Valid => tail_checks t
+    | v => v
+    end
+  else Invalid.
+
+(* checks on user-originated transactions (everything but ATR and Issuance),
+   then the per-type rules *)
+Definition common_checks (e : env) (t : atx) : verdict :=
   let user := negb (t_type t =? TATR) && negb (t_type t =? TIssuance) in
   if user && match t_from t with [] => true | _ => false end then Invalid else
   if user && negb (t_has_hash t) then Invalid else
@@ -74,32 +180,71 @@ Definition tx_validate (t : atx) : verdict :=
   if user && negb (t_type t =? TBound) && negb (all_owned t) then Invalid else
   if user && negb (t_path_ok t) then Invalid else
   if user && (total_in t <? total_out t) then Invalid else
-  if t_type t =? TBound then Unmodelled else
+  if t_type t =? TBound then bound_checks e t else
   if negb (t_type t =? TATR) && (has_bound (t_from t) || has_bound (t_to t)) then Invalid else
-  match t_to t with
-  | [] => Invalid
-  | _ => if forallb slip_validate (t_from t) then Valid else Invalid
-  end.
+  tail_checks t.
+
+Definition tx_validate (e : env) (t : atx) : verdict :=
+  if 255 <? Nlen (t_from t) then Invalid else
+  if 255 <? Nlen (t_to t) then Invalid else
+  if negb (nodupb (value_keys t)) then Invalid else
+  if t_type t =? TFee then Valid else
+  if t_type t =? TSPV then
+    (if existsb (fun s => 0 <? sl_amount s) (t_to t) then Invalid
+     else if 0 <? total_fees t then Invalid else Valid) else
+  if t_type t =? TStake then
+    match stake_outs (e_ovf e) 0 (t_to t) with
+    | SPanic => Panics
+    | SBad => Invalid
+    | SOk total =>
+        if total <? e_stake_req e then Invalid else
+        if negb (stake_ins t) then Invalid else
+        common_checks e t
+    end
+  else common_checks e t.
 
 (* Mempool::add_transaction_if_validates, the validity gate only (reservations are
    in model/Mempool.v) *)
-Definition pool_gate (t : atx) : bool :=
+Definition pool_gate (e : env) (t : atx) : bool :=
   negb ((t_type t =? TFee) || (t_type t =? TATR) || (t_type t =? TSPV))
-  && match tx_validate t with Valid => true | _ => false end.
+  && match tx_validate e t with Valid => true | _ => false end.
 
 (* the final sweep of Block::validate: every transaction validates, and no value
-   input is spent twice within the block (fee transactions excepted) *)
-Fixpoint sweep (seen : list N) (txs : list atx) : bool :=
+   input is spent twice within the block (fee transactions excepted; zero-amount
+   and Bound inputs are skipped) *)
+Fixpoint sweep (e : env) (seen : list N) (txs : list atx) : bool :=
   match txs with
   | [] => true
   | t :: rest =>
-      match tx_validate t with
+      match tx_validate e t with
       | Valid =>
-          if t_type t =? TFee then sweep seen rest
+          if t_type t =? TFee then sweep e seen rest
           else
             let ks := value_keys t in
             if existsb (fun k => existsb (N.eqb k) seen) ks then false
-            else sweep (ks ++ seen) rest
+            else sweep e (ks ++ seen) rest
       | _ => false
       end
   end.
+
+(* Block::validate, the rules about the block's transactions: where social staking is
+   required every block after the first carries exactly one BlockStake transaction
+   (cv.st_num is a u8 counter incremented per BlockStake transaction), and the sweep *)
+Definition stake_count (txs : list atx) : N :=
+  Nlen (filter (fun t => t_type t =? TStake) txs).
+Definition stake_count_ok (e : env) (id : N) (txs : list atx) : bool :=
+  (e_stake_req e =? 0) || (id <=? 1) ||
+  (if 256 <=? stake_count txs
+   then (if e_ovf e then false (* the counter overflows: panic *) else stake_count txs mod 256 =? 1)
+   else stake_count txs =? 1).
+Definition block_txs_ok (e : env) (id : N) (txs : list atx) : bool :=
+  stake_count_ok e id txs && sweep e [] txs.
+
+(* what the signature covers of a slip (Slip::serialize_input_for_signature /
+   serialize_output_for_signature): public key, amount, slip_index, type -- NOT
+   block_id and tx_ordinal, hence not the utxo key.  [t_sig_ok] is a function of
+   the signed bytes, i.e. (together with timestamp, data, txs_replacements, which
+   the abstract transaction does not carry) of [signed_content]. *)
+Definition signed_view (s : aslip) : N * N * N * N := (sl_pk s, sl_amount s, sl_idx s, sl_type s).
+Definition signed_content (t : atx) : N * list (N * N * N * N) * list (N * N * N * N) :=
+  (t_type t, map signed_view (t_from t), map signed_view (t_to t)).
